@@ -787,11 +787,13 @@ func isMRClauseKeyword
   props C11 C15
   option safety
   option pure
+  ensures the-clause-words-of-match-recognize-in-any-letter-case-and-no-other-word: result <==> (strings.ToUpper(v) == "PARTITION" || strings.ToUpper(v) == "ORDER" || strings.ToUpper(v) == "MEASURES" || strings.ToUpper(v) == "ONE" || strings.ToUpper(v) == "ALL" || strings.ToUpper(v) == "AFTER" || strings.ToUpper(v) == "PATTERN" || strings.ToUpper(v) == "DEFINE" || strings.ToUpper(v) == "SUBSET" || strings.ToUpper(v) == "WITHIN")
 
 func stripBackticks
   props C11 C15
   option safety
   option pure
+  ensures a-name-between-backticks-loses-exactly-that-pair-anything-else-is-kept: result == ite(len(s) >= 2 && s[0] == 96 && s[len(s) - 1] == 96, s[1:len(s) - 1], s)
 
 func isMRIdentLike
   props C11 C15
